@@ -621,6 +621,51 @@ func mutate(r *hx.Rng, s []byte) []byte {
 	return t
 }
 
+// exhaustive small scope: every sequence of length <= depth over a fixed alphabet of messages chosen so
+// that each pair exercises one conjunct of isContinue (index, term/logterm, ToGroup, FromGroup) or the
+// heartbeat test, on two raft groups sharing the stream; includes one letter that is not well-formed when
+// it continues (group name differs).
+func exhaustive(depth int, add func(local, remote uint64, ms []raftpb.Message)) {
+	gaF := raftpb.Group{NodeId: 1, Name: "ns-0", GroupId: 7, RaftReplicaId: 11}
+	gaT := raftpb.Group{NodeId: 2, Name: "ns-0", GroupId: 7, RaftReplicaId: 12}
+	gaT2 := raftpb.Group{NodeId: 2, Name: "ns-0", GroupId: 7, RaftReplicaId: 13}
+	gbF := raftpb.Group{NodeId: 1, Name: "ns-1", GroupId: 8, RaftReplicaId: 11}
+	gbT := raftpb.Group{NodeId: 2, Name: "ns-1", GroupId: 8, RaftReplicaId: 12}
+	gaFx := gaF
+	gaFx.Name = "other"
+	ent := func(term, idx uint64) raftpb.Entry {
+		return raftpb.Entry{Term: term, Index: idx, Data: []byte{byte(idx)}, ID: 100 + idx}
+	}
+	app := func(f, t raftpb.Group, term, lt, idx uint64, es ...raftpb.Entry) raftpb.Message {
+		return raftpb.Message{Type: raftpb.MsgApp, From: f.RaftReplicaId, To: t.RaftReplicaId, Term: term, LogTerm: lt, Index: idx,
+			Entries: es, Commit: idx, FromGroup: f, ToGroup: t}
+	}
+	alphabet := []raftpb.Message{
+		app(gaF, gaT, 3, 2, 10, ent(3, 11)),             // A probe: full frame, leaves index 11
+		app(gaF, gaT, 3, 3, 11, ent(3, 12)),             // A replicate from 11
+		app(gaF, gaT, 3, 3, 11),                         // A empty append at 11
+		app(gaF, gaT, 3, 3, 12, ent(3, 13), ent(3, 14)), // A replicate from 12
+		app(gbF, gbT, 3, 3, 11, ent(3, 12)),             // B: same index / term, other group
+		app(gaF, gaT2, 3, 3, 11, ent(3, 12)),            // same FromGroup, other ToGroup replica
+		app(gaFx, gaT, 3, 3, 11, ent(3, 12)),            // same ids, other name
+		app(gaF, gaT, 4, 3, 12, ent(4, 13)),             // A new term
+		{Type: raftpb.MsgHeartbeat},
+	}
+	var rec func(prefix []raftpb.Message)
+	rec = func(prefix []raftpb.Message) {
+		if len(prefix) > 0 {
+			add(2, 1, append([]raftpb.Message{}, prefix...))
+		}
+		if len(prefix) == depth {
+			return
+		}
+		for i := range alphabet {
+			rec(append(prefix, alphabet[i]))
+		}
+	}
+	rec(nil)
+}
+
 func generate(r *hx.Rng) []*kase {
 	var cases []*kase
 	id := 0
@@ -643,6 +688,10 @@ func generate(r *hx.Rng) []*kase {
 	addSeq("msg", 1, 2, nil, true)
 	addSeq("v2", 1, 2, []raftpb.Message{{Type: raftpb.MsgHeartbeat}}, true)
 	addSeq("msg", 0, 0, []raftpb.Message{{}}, true)
+
+	exhaustive(*exhDepth, func(local, remote uint64, ms []raftpb.Message) {
+		add("S", "v2", local, remote, fmtMsgs(ms), "-")
+	})
 
 	var pool [][2]interface{} // (codec, stream) of valid streams, for the mutator
 	keep := func(codec string, local, remote uint64, s []byte) {
